@@ -211,6 +211,28 @@ def proj_black(o):  # everything except the white-box snapshot
     return (o["ret"], tuple(o["ev"]), tuple(o["H"]), tuple(o["W"]), tuple(o["st"]))
 
 
+# Hidden collector state that the invariants behind a property's theorems read (DESIGN.md §4): when model and
+# implementation agree on the property's observables but drift apart here, the correspondence the proof rests on
+# is broken all the same (the drift is what a later collection acts on).
+def hid_marks(o):  # per-object mark / tracing counter, buffer contents and order
+    return (tuple((x[0], x[2], x[3]) for x in o["wb"]), tuple(o["pc"]))
+
+
+def hid_counts(o):  # per-object count
+    return (tuple((x[0], x[1]) for x in o["wb"]),)
+
+
+def hid_fin(o):  # per-object finalized flag
+    return (tuple((x[0], x[4]) for x in o["wb"]),)
+
+
+def hid_buffer(o):
+    return (tuple(o["pc"]), o["st"][1])
+
+
+HIDDEN = {"C01": hid_marks, "C02": hid_marks, "C06": hid_marks, "C07": hid_marks, "C04": hid_counts, "C05": hid_fin,
+          "C13": hid_buffer, "C03": hid_counts}
+
 PROJ = {"C01": proj_C01, "C02": proj_C02, "C03": proj_C03, "C04": proj_C04, "C05": proj_C05, "C06": proj_C06,
         "C07": proj_C07, "C08": proj_C08, "C09": proj_C09, "C10": proj_C10, "C11": proj_C11, "C12": proj_C12,
         "C13": proj_C13, "C14": proj_C14, "C15": proj_C15, "C16": proj_C16, "full": proj_full, "black": proj_black}
@@ -226,6 +248,7 @@ ORACLE_PROPS = {
     "T-flag": ["C12"], "cb-flag": ["C12"],
     "fin-twice": ["C05", "C06"], "fin-without-feature": ["C05"], "finagain-in-callback": ["C12"], "unwrap-wrong": ["C13", "C12"],
     "action-twice": ["C10"], "action-early": ["C10"], "transient-map-leaked": ["C03", "C10"], "up-none-live": ["C08"], "cyclic-alive-inside": ["C14"], "cyclic-count": ["C14"],
+    "born-unfinalized": ["C05"], "born-finalized-outside": ["C05"],
     "execs": ["C11", "C12", "C15"], "drop-unfinalized": ["C04", "C05"], "fin-reachable": ["C05", "C01", "C07"], "meta-leak": ["C09", "C03"], "not-idle-after-op": ["C07", "C12"],
 }
 
